@@ -86,6 +86,7 @@ def modelLine (fields : List String) : String :=
     | some f, some cap, some bs =>
       let dst : PoolMsg := if kind = "recycled" then { newMessage with optCap := cap } else newMessage
       match unmarshalWithDecoderN (coderOf f) dst bs with
+      | .error .optCap => "hang"      -- only reachable when the retry loop makes no progress (see `decodeRetryN`)
       | .error e => s!"pdec -1 {e.toString} -"
       | .ok (n, st) => s!"pdec {n} ok {fmtMsg (canonTcp f st.msg)} alias=ok"
     | _, _, _ => "bad-op"
